@@ -14,6 +14,9 @@ CONTRACT_MODULES = ['checks', 'rules', 'external', 'enforce', 'deprecated', 'val
 
 
 def build():
+    from . import world as _w
+    if _w.REPO not in sys.path:
+        sys.path.insert(0, _w.REPO)     # reflection imports the same tree the AST is read from
     world = World()
     reg = Registry()
     from contracts.stubs import make_stubs
